@@ -75,7 +75,7 @@ def main():
         r0 = rng.random()
         if r0 < 0.6: cases.append({"op": "in_unit", "a": {"m": m, "u": a}, "b": b})
         else: cases.append({"op": rng.choice(["eq", "lt", "le", "gt", "add", "sub", "ne", "ge"]), "a": {"m": m, "u": a}, "b": {"m": convgen.rand_mag(rng, ("int", "float", "dec")), "u": b}})
-    r, ro = run_both({"systems": True, "cases": cases})
+    r, ro = run_both({"systems": True, "cases": cases, "bookkeeping": True})
     conv = [(cs, res) for cs, res in zip(cases, r["results"]) if cs["op"] == "in_unit"]
     run_block(c, "ship", r["export"], [x for x, _ in conv], [y for _, y in conv], Fraction(1, 10**11))
     judge("shipped", cases, r, ro, None)
@@ -117,7 +117,17 @@ def main():
             dc.append({"op": op, "disconnected": True, "a": {"m": za, "u": [[[2, 10], "zzd0", 1]]}, "b": {"m": zb, "u": [[[2, -3], "zzd2", 1]]}})
     for (ua, ub) in ((0, 1), (1, 2)):
         dc.append({"op": "in_unit", "a": {"m": ["int", "3", "1"], "u": [[None, f"zzd{ua}", 1]]}, "b": [[None, f"zzd{ub}", 1]]})
-    rr, rro = run_both({"systems": False, "define": define, "decls": [], "cases": dc})
+    # int, float and Decimal magnitudes on units whose prefix mixes bases ((2^10 a)/(10^3 t), 2^10 * 10^3 a), against a unit with no link
+    for mk_ in ("int", "float", "dec"):
+        m_ = {"int": ["int", "3", "1"], "float": ["float", "5", "2"], "dec": ["dec", "7", "4"]}[mk_]
+        for ua_, ub_ in (([[[2, 10], "zzd0", 1], [[10, 3], "zzt0", -1]], [[None, "zzd1", 1], [None, "zzt0", -1]]),
+                         ([[[2, 10], "zzd0", 1], [[10, 3], "zzd0", 1]], [[None, "zzd1", 2]]),
+                         ([[None, "zzd1", 1], [None, "zzt0", -1]], [[[2, 10], "zzd0", 1], [[10, -3], "zzt0", -1]])):
+            dc.append({"op": "in_unit", "a": {"m": m_, "u": ua_}, "b": ub_})
+            for op in ("eq", "ne", "lt", "ge", "add", "sub"):
+                dc.append({"op": op, "disconnected": True, "a": {"m": m_, "u": ua_}, "b": {"m": m_, "u": ub_}})
+                dc.append({"op": op, "disconnected": True, "a": {"m": m_, "u": ub_}, "b": {"m": m_, "u": ua_}})
+    rr, rro = run_both({"systems": False, "define": define, "decls": [], "cases": dc, "bookkeeping": True})
     judge({"define": define, "decls": []}, dc, rr, rro, None)
     # a Level against quantities it cannot be converted to: == is False, != is True, nothing else (in particular no RecursionError)
     lv = {"t": "level", "m": ["int", "20", "1"], "log": "decibel", "prefix": None, "ref": {"m": ["int", "1", "1"], "u": [[None, "watt", 1]]}}
